@@ -212,6 +212,19 @@ def install(it):
             ctx.lib_stubs[n] = stub_fn
     reg("use_lib_stub", use_lib_stub)
 
+    def draws(it_, ctx):
+        """the random draws (fresh U[0,1) variables, A7) made so far on this path, in order"""
+        return list(getattr(ctx, "draws", []))
+    reg("draws", draws)
+
+    def call_real(it_, ctx, fn, *a, **k):
+        """call fn with its real body even if a stub is registered for it (nested calls use the stub):
+        the standard way to check a recursive function against its own contract"""
+        f = fn.func if isinstance(fn, BoundMethod) else fn
+        ctx.skip_stub_once = f.qualname
+        return it_.call(fn, list(a), k, ctx)
+    reg("call_real", call_real)
+
     def harness(it_, ctx, *a, **k):
         def deco(f):
             f.attrs["harness"] = dict(k)
